@@ -12,8 +12,8 @@ import (
 // asked.
 
 type C16Case struct {
-	Base Cfg   `json:"base"` // configuration without canaries
-	Reqs []Req `json:"reqs"` // preflight requests
+	Base Cfg   `json:"base"`          // configuration without canaries
+	Reqs []Req `json:"reqs"`          // preflight requests
 	Via  int   `json:"via,omitempty"` // history through which the debug-off state is reached; see mkMWVia
 }
 
